@@ -41,7 +41,7 @@ def dedup (l : List Int) : List Int :=
 
 def showInts (l : List Int) : String := ",".intercalate (l.map toString)
 
-def keyLt (a b : (Reg × Loc) × List Loc) : Bool :=
+def keyLt (a b : (Reg × Int) × List Int) : Bool :=
   a.1.1 < b.1.1 || (a.1.1 == b.1.1 && a.1.2 < b.1.2)
 
 def showDict (D : Dict) : String :=
